@@ -326,10 +326,15 @@ def _rm(*paths):
             pass
 
 
-def debugfs_scripts(targets, dirs_extra, blocks, outdir):
-    """(main script, journal script, cat script, rdump script) - read-only commands"""
-    t = list(targets)
-    a = ["stats", "stats -h", "ls -l /", "ls -ld /", "ls -l <12>", "ls -p /"]
+def debugfs_scripts(targets, blocks, outdir):
+    """(main script, journal script, cat script, rdump script) - read-only commands.
+    targets: [(ino, S_IFMT bits of the inode in the uncorrupted base)].  Directory commands
+    are only applied to inodes that are directories in the base: what such a command does
+    with a regular file's data is a usage question, not an input-robustness one."""
+    t = [i for i, _ in targets]
+    dirs = [i for i, f in targets if f == 0o040000]
+    files = [i for i, f in targets if f in (0o100000, 0o120000)]
+    a = ["stats", "stats -h", "ls -l /", "ls -ld /", "ls -p /"]
     for ino in [2, 7, 8, 11, 12, 13] + t:
         a.append("stat <%d>" % ino)
     for ino in [2, 12] + t:
@@ -338,11 +343,13 @@ def debugfs_scripts(targets, dirs_extra, blocks, outdir):
               "inode_dump -e <%d>" % ino, "inode_dump -x <%d>" % ino, "imap <%d>" % ino,
               "filefrag -v <%d>" % ino, "testi <%d>" % ino]
     for ino in t[:6]:
-        a += ["ls -l <%d>" % ino, "htree_dump <%d>" % ino, "dirsearch <%d> x" % ino,
-              "extent_open <%d>" % ino, "info", "root", "next", "next", "next", "next_leaf", "last_leaf",
+        a += ["extent_open <%d>" % ino, "info", "root", "next", "next", "next", "next_leaf", "last_leaf",
               "prev", "prev_leaf", "goto_block 5", "current_node", "print_all", "extent_close"]
         for nm in EA_NAMES[:5]:
             a.append("ea_get <%d> %s" % (ino, nm))
+    for ino in dirs[:5]:
+        a += ["ls -l <%d>" % ino, "htree_dump <%d>" % ino, "dirsearch <%d> x" % ino,
+              "dirsearch <%d> f0001" % ino]
     a += ["htree_dump /", "htree_dump /many", "ls -l /many", "ls -l /xa", "ea_list /xa/f1", "ea_list /xa/f2",
           "ea_list /xa/big", "ea_list /xa"]
     for nm in EA_NAMES:
@@ -361,9 +368,11 @@ def debugfs_scripts(targets, dirs_extra, blocks, outdir):
     j = ["logdump -a", "logdump -S", "logdump -O -S", "logdump -c", "logdump -a -O -n 4", "logdump -b %d" % blocks[0],
          "logdump -i <12>"]
     c = []
-    for ino in ([12] + t)[:7]:
+    for ino in files[:6]:
         c.append("cat <%d>" % ino)
-    c += ["dump -p <12> %s/dump12" % outdir, "dump_unused"]
+    if files:
+        c.append("dump -p <%d> %s/dumped" % (files[0], outdir))
+    c.append("dump_unused")
     r = ["rdump / %s" % outdir]
     return a, j, c, r
 
@@ -387,7 +396,7 @@ def _fs_tools(R, ctx, img, workdir, tag, targets, blocks, jnl=None):
     _rm(out)
     R.p("e2freefrag", "e2freefrag", [img])
     odir = os.path.join(workdir, tag + ".rd")
-    a, j, c, r = debugfs_scripts(targets, [], blocks, odir)
+    a, j, c, r = debugfs_scripts(targets, blocks, odir)
     sp = os.path.join(workdir, tag + ".cmd")
     for label, lines, fsize in (("debugfs script", a, None), ("debugfs logdump", j, None),
                                 ("debugfs cat", c, RDUMP_FSIZE), ("debugfs rdump", r, RDUMP_FSIZE)):
@@ -483,8 +492,8 @@ def run_case(ctx, case, paths, inf, only=None, timeout=WATCHDOG, tag=None):
             inos, blocks = _targets_from_descr(case["descr"])
             targets = []
             for i in inos + (_profile(inf) if inf else []):
-                if i not in targets:
-                    targets.append(i)
+                if i not in [x for x, _ in targets]:
+                    targets.append((i, (inf.inodes.get(i, {}).get("fmt", 0) if inf else 0)))
             blocks = (blocks + [1, 100, 7000])[:4]
             _fs_tools(R, ctx, f["img"], workdir, tag, targets[:10], blocks)
         elif cls == "xjrnl":
@@ -660,11 +669,18 @@ def main(tier, seed, replay=None, scale=1.0):
                     continue
                 if v["verdict"] == "timeout":
                     # first expiry: run that single process again, alone, with a longer limit
+                    hkey = "C06 %s hang %s" % (p["bin"], _image_class(r))
+                    if hkey in seen_keys:
+                        # this signature was already confirmed by a re-run in this run
+                        seen_keys[hkey] += 1
+                        rep.count("watchdog_expiries_of_confirmed_hang_signature")
+                        continue
                     rr = _one((ctx, "case", r["cid"], p["label"], WATCHDOG_RERUN))
                     again = [q for q in rr.get("procs", []) if q["label"] == p["label"]]
                     rep.count("watchdog_reruns")
                     if again and again[0]["to"]:
-                        key = "C06 %s hang %s" % (p["bin"], _image_class(r))
+                        key = hkey
+                        seen_keys[key] = 1
                         rep.violation(key, "%s did not finish within %d s and again not within %d s alone "
                                            "(cid %d on %s: %s)" % (p["label"], WATCHDOG, WATCHDOG_RERUN,
                                                                   r["cid"], r["base"], r["descr"]),
